@@ -362,6 +362,8 @@ def semantic_faults():
     return [
         ("seqnum-nonnumeric", ref_encode("D", H + [(34, "2x")] + T + [(11, "a")])),
         ("seqnum-empty-ish", ref_encode("D", H + [(34, " ")] + T + [(11, "a")])),
+        ("seqnum-empty", ref_encode("D", H + [(34, "")] + T + [(11, "a")])),
+        ("sender-duplicated", ref_encode("D", [(49, "CLI"), (49, "CLI"), (56, "SRV"), (34, 2)] + T + [(11, "a")])),
         ("seqnum-float", ref_encode("0", H + [(34, "2.0")] + T)),
         ("seqnum-huge", ref_encode("0", H + [(34, "9" * 400)] + T)),
         ("seqnum-beyond-int-conversion", ref_encode("0", H + [(34, "9" * 5000)] + T)),
@@ -407,6 +409,14 @@ def live_semantic(acc, m, op, split):
             for v in vs:
                 r.feed(v)
                 w.idle()
+        # the peer now stays silent: the valid frames that arrived must have been dispatched without waiting for more input
+        before_kick = s.dispatched[n0:]
+        if not (s.connection_state <= ConnectionState.DISCONNECTED_BROKEN_CONN) and not s._aio_task_socket_read.done():
+            waiting = [v for v in vs if v not in before_kick]
+            if waiting:
+                acc.violation(f"C10:live/following-frames-wait-for-more-input/{op}/{split}",
+                              f"{len(waiting)} of {len(vs)} valid frames that arrived behind a decodable but semantically broken frame were not dispatched "
+                              f"until further bytes arrive (state={s.connection_state!r}, buffer={len(s._msg_buffer)}B); frame={m[:160]!r}", case)
         kick = ref_msg("0", "CLI", "SRV", 8)
         r.feed(kick)
         w.idle()
